@@ -1,9 +1,10 @@
-\* variant: ConnectionCodeRepository.Create appends the index entry before it writes the records; a list request
-\* (no quota mutex) in between prunes the entry, the code goes live uncounted.
+\* variant: ConnectionCodeRepository.Create (mapquota: PortMappingService.CreatePortMapping) appends the index entry
+\* before it writes the records; a list request (no quota mutex) that prunes entries without a record, in between,
+\* removes the entry: the code (mapping) goes live uncounted.
 \*   tlc -config Limits_show_indexfirst.cfg Limits.tla   (expected: Invariant NoOvershoot is violated, n = 2, limit = 1:
 \*   Call(1), Count(1), Index(1), LCall, LList, LPrune, Put(1), Call(2), Count(2), Index(2), Put(2))
 CONSTANTS
-  Kinds = {"codequota"}
+  Kinds = {"codequota", "mapquota"}
   NS = {2, 3, 4}
   Lims = {0, 1, 2}
   NodeCounts = {1}
